@@ -60,6 +60,9 @@ def run(prop: str, tier: str, seed: int) -> int:
         # format dialects leave exactly their native types unconverted -- also on the FIRST call of a lazily compiled format mixin
         from harness.checks import sys_props
         sys_props.run_into(rep, "C02", tier, seed)
+    # ---- configured dataclass families: mixin and codec entry points with and without a default_dialect (lossless int strategies)
+    from harness.checks import conf_props
+    conf_props.run_into(rep, prop, tier, seed)
     # ---- channel V: random deeper schemas, judged by TLC against the same operators
     g = gen.Gen(seed, max_depth=4 if tier == "quick" else 5)
     ngroups = 1500 if tier == "quick" else 15000
